@@ -177,7 +177,7 @@ def contract_names():
     return m
 
 
-def run_kani(crate, harnesses, jobs, harness_timeout, extra_flags=(), total_timeout=None):
+def run_kani(crate, harnesses, jobs, harness_timeout, extra_flags=(), total_timeout=None, env_extra=None):
     out_json = os.path.join(os.path.dirname(crate), "kani_out.json")
     if os.path.exists(out_json):
         os.remove(out_json)
@@ -188,7 +188,9 @@ def run_kani(crate, harnesses, jobs, harness_timeout, extra_flags=(), total_time
     for h in harnesses:
         cmd += ["--harness", h]
     tt = total_timeout or (harness_timeout * (1 + len(harnesses) // max(1, jobs)) + 300)
-    rc, out, wall = sh(cmd, cwd=crate, timeout=tt, env={"CARGO_TARGET_DIR": os.path.join(os.path.dirname(crate), "target")})
+    env = {"CARGO_TARGET_DIR": os.path.join(os.path.dirname(crate), "target")}
+    env.update(env_extra or {})
+    rc, out, wall = sh(cmd, cwd=crate, timeout=tt, env=env)
     data = None
     if os.path.exists(out_json):
         try:
@@ -214,8 +216,8 @@ def classify(data, out, expected_harnesses, harness_prefixes):
     cnames = contract_names()
     for hid, r in results.items():
         seen.add(hid)
-        st = stats.get(hid, {}).get("cbmc_stats", {})
-        solver = stats.get(hid, {}).get("configuration", {}).get("solver", "cadical")
+        st = (stats.get(hid) or {}).get("cbmc_stats") or {}
+        solver = ((stats.get(hid) or {}).get("configuration") or {}).get("solver", "cadical")
         ph = {"status": r["status"], "wall_s": r.get("duration_ms", 0) / 1000.0,
               "solver": solver, "solver_s": st.get("runtime_solver_s"), "symex_s": st.get("runtime_symex_s"),
               "vccs": st.get("vccs_generated"), "named": 0, "auto": 0, "covers_sat": 0, "covers_unsat": 0}
